@@ -4,6 +4,8 @@ import json, os, subprocess, sys
 T = {
  "C05-r10m1": ("Notary.OnPersist takes only the network fee of a sponsored transaction off the depositor's record", "a NotaryAssisted transaction sent by the Notary contract with a non-zero system fee: the contract's GAS falls short of the recorded deposits by the system fee", "pkg/core/native/native_test", "TestC05Demo_NotaryDepositMatchesGAS", "missed", "deposit-charge-mirrors-burn added after"),
  "C08-r10m1": ("Pool.Add evicts the conflicting transactions before the OracleResponse check that can still refuse the addition", "a transaction carrying both a winning Conflicts relation and an OracleResponse that loses to a pooled one", "pkg/core/mempool", "TestC08Demo_FailedOracleAddKeepsConflicts", "DETECTED add-failure-atomic", "rule existed before the seed was looked at"),
+ "C12-r10m1": ("KEYS adds m.Len() to the reference counter for the array it pushes instead of m.Len()+1 (the array itself is not counted)", "a loop of KEYS and DROP over a kept map: the counter sinks by one per round and the 2048 limit is passed", "pkg/vm", "TestC12Demo_KeysAccounting", "missed", "still missed: whether an arm's additions to the counter equal what it makes reachable is arithmetic over the arm (VALUES rightly adds 0, PACK n+1, NEWARRAY 1) - no structural clause separates m.Len() from m.Len()+1 without modelling the counter"),
+ "C12-r10m2": ("Pointer.IsFromScript compares the lengths of the two scripts instead of their contents", "two versions of one contract with equal length and another instruction layout, a pointer of the old one handed to the new one", "pkg/vm", "TestC12Demo_PointerAcrossScriptVersions", "missed", "pointer-script-match asked that CALLA call a method that reads the script field with the running script - satisfied by a length comparison; by-content clause added after"),
  "C13-r10m1": ("pre-Gorgon SHL/SHR by zero pops the operand and pushes NewBigInteger of it instead of leaving it untouched", "Gorgon disabled (historic replay), shift 0, an operand that is not an Integer", "pkg/vm", "TestC13Demo_ZeroShiftPreGorgon", "missed", "operand-back-unchanged added after"),
  "C13-r10m2": ("Struct.equalStruct recurses into nested structures before charging the comparable-size budget", "byte strings using almost the whole budget followed by nested structures", "pkg/vm", "TestC13Demo_EqualNestedStructComparableUnits", "missed", "budget-every-element added after"),
  "C15-r10m1": ("Management.callDeployDeferrable names the invoker of deploy/update as the caller of _deploy instead of ContractManagement", "a contract whose _deploy checks the witness of the entry script or of a factory contract", "pkg/core/native/native_test", "TestC15Demo_DeployCallerIsManagement", "missed", "native-caller-is-self added after"),
